@@ -19,7 +19,18 @@ func (it *Interp) intrinsicFor(fn *ssa.Function) Intrinsic {
 	}
 	var in Intrinsic
 	name := fn.String()
-	if f, ok := intrinsics[name]; ok {
+	stubbed := false
+	if it.stubs != nil {
+		key := name
+		if o := fn.Origin(); o != nil {
+			key = o.String()
+		}
+		if st := it.stubs[key]; st != nil && st != fn {
+			stubbed = true // a harness stub overrides a built-in intrinsic
+		}
+	}
+	if stubbed {
+	} else if f, ok := intrinsics[name]; ok {
 		in = f
 	} else if o := fn.Origin(); o != nil {
 		if f, ok := intrinsics[o.String()]; ok {
